@@ -75,7 +75,9 @@ def _chunk(args):
         for v in others:
             agg["probes"]["other_property_observations:" + v["property"]] += 1
         if mine:
-            agg["viol"].append({"run": i, "seed": s, "violations": mine, "trace": res["trace"]})
+            agg["viol"].append(
+                {"run": i, "seed": s, "violations": mine, "trace": res["trace"], "model_dict": res.get("model_dict")}
+            )
         if want_samples and len(agg["samples"]) < want_samples and res.get("nontrivial"):
             agg["samples"].append(res.get("sample"))
     return agg
